@@ -15,8 +15,10 @@ SPEC = {
         "(tools/translators/published.py)",
         "setter layouts: regenerated from the C++ source on every run by the C05 translator tools/translators/layouts.py "
         "(clang AST, per-bit symbolic evaluation) and validated on every run against the real setters' bytes (correspondence)",
-        "bits written inside conditionals (126993 interval, 129029 reference-station record) and PGN 126464 (loop) are outside "
-        "the layout language: covered by the harness' table-driven encoder only",
+        "setters that branch on an integer parameter (126993 interval limit, 129029 reference stations) are read once per path "
+        "(pairs <pgn>_t / <pgn>_e); `x / constant` of a whole unsigned parameter is read as the parameter's code with a side "
+        "record of that resolution (truncating division, done by `Pair.intCode` in the driver). PGN 126464 (loop) is outside "
+        "the layout language: harness' table-driven encoder only",
         "scaled fields: the theorem pins offset, byte width, signedness and resolution of the Add<N>Byte[U]Double call; the "
         "double->code conversion itself is property C06",
         "signedness of integer fields is checked when the parameter fills its C type (int8_t/int16_t vs published signed); "
@@ -39,8 +41,8 @@ MANIFEST = {
             "written inside conditionals. A symmetric error (same wrong resolution or swapped fields in setter and parser) "
             "passes C05 and fails here (confirmed with seeded changes).",
     'design_ref': 'DESIGN.md section 4, C15',
-    'note': "Trusted: Lean kernel; the hand-written published table (each disagreement with the pinned tree was reviewed: two "
-            "remain, both open findings - 126993 interval unit, 129284 ETA date signedness); the layout translator (validated by "
-            "the differential run). Not in the theorems: 126464 (repeated field), 126993 interval and 129029 reference-station "
-            "record (conditionals) - oracle only.",
+    'note': "Trusted: Lean kernel; the hand-written published table (each disagreement with the pinned tree was reviewed: 126993 interval "
+            "unit - fixed by 0fcb326 and now proved at full strength - and 129284 ETA date signedness, open); the layout translator (validated by "
+            "the differential run). Not in the theorems: 126464 (repeated field) - oracle only."
+            "",
 }
